@@ -221,14 +221,24 @@ def run(tier, seed):
     states += ca["states"]
     trans += ca["transitions"]
     nrep += ca["replayed"]
+    # test-time search (ActiveSearch, EAS): Search.tla / SearchTrace.tla
+    from . import c15b_search
+    vs, cs = c15b_search.violations(tier, seed)
+    viol += [v for v in vs if v["property"] == "C15"]
+    states += cs["states"]
+    trans += cs["transitions"]
+    nrep += cs["replayed"]
     n_new, n_known = verdict.report("C15", viol)
     cov = {"states": states, "transitions": trans, "traces_validated_against_impl": nrep + ntr, "samples": samples, "exhaustive": True,
            "replayed_points_x_copies": nrep, "eval_records": ntr, "known_finding_witnesses": n_known,
            "ant_colony_search": {k: v for k, v in ca.items() if k != "samples"},
+           "test_time_search": {k: v for k, v in cs.items() if k != "samples"},
            "explanation": "Augment.tla model-checked and replayed into dihedral_8_augmentation; symmetric augmentation and all evaluation "
                           "classes validated on recorded executions (AugTrace.tla, EvalTrace over the TSP/CVRP problem definitions); ACO.tla: all "
                           "behaviours of the ant-colony search of a small scope replayed into the real AntSystem.run with scripted draws, real "
-                          "DeepACOPolicy evaluation runs validated by ACOTrace.tla"}
+                          "DeepACOPolicy evaluation runs validated by ACOTrace.tla; Search.tla: every complete run of the ActiveSearch / EAS "
+                          "protocol of a small scope replayed into the real classes, real RL4COTrainer.fit runs validated by SearchTrace.tla "
+                          "(every rollout and stored solution re-scored on the original instance with TSP.tla / CVRP.tla)"}
     verdict.write_evidence("C15", tier, seed, "model_checking", cov,
                            ["coordinate-sensitive table policy as stub decoder", "exact lattice instances so that rewards are integers"],
                            time.time() - t0, n_new)
